@@ -158,7 +158,8 @@ pub fn p_canonization_ind(
     all_swaps: &[u8],
 ) -> usize {
     best.clone_from_slice(table);
-    let mut best_ind = 0;
+    // The swaps form a closed cycle: the input itself is seen again at the last index
+    let mut best_ind = all_swaps.len().saturating_sub(1);
     let mut ind = 0;
     for swap in all_swaps {
         swap_adjacent_inplace(num_vars, table, *swap as usize);
@@ -179,7 +180,8 @@ pub fn n_canonization_ind(
     all_flips: &[u8],
 ) -> usize {
     best.clone_from_slice(table);
-    let mut best_ind = 0;
+    // The flips form a closed cycle: the input itself is seen again at the last index
+    let mut best_ind = (2 * all_flips.len()).saturating_sub(1);
     let mut ind = 0;
     for flip in all_flips {
         flip_inplace(num_vars, table, *flip as usize);
@@ -203,7 +205,8 @@ pub fn npn_canonization_ind(
     all_flips: &[u8],
 ) -> usize {
     best.clone_from_slice(table);
-    let mut best_ind = 0;
+    // Swaps and flips form closed cycles: the input itself is seen again at the last index
+    let mut best_ind = (2 * all_swaps.len() * all_flips.len()).saturating_sub(1);
     let mut ind = 0;
     for swap in all_swaps {
         swap_adjacent_inplace(num_vars, table, *swap as usize);
